@@ -52,7 +52,7 @@ func specInherits(k, parent []byte) bool {
 // CreateKey: only a decryptable master key whose contract is found and validates mints; the minted key inherits
 // master id, contract and signature, carries exactly the requested permissions minus the master bit; a failure
 // mints nothing.
-//@ verify (*Service).CreateKey pre=pre_Service post=post_CreateKey_fail,post_CreateKey_master,post_CreateKey_contract,post_CreateKey_inherit,post_CreateKey_perms props=C11
+//@ verify (*Service).CreateKey pre=pre_Service post=post_CreateKey_fail,post_CreateKey_unexpired,post_CreateKey_master,post_CreateKey_contract,post_CreateKey_inherit,post_CreateKey_perms props=C11
 func pre_Service(s *Service) bool { return s != nil && s.cipher != nil && s.loader != nil && s.auth != nil }
 func post_CreateKey_fail(s *Service, res0 string, res1 *errors.Error) bool {
 	return res1 == nil || (res0 == "" && (vs.TraceCount("EncryptKey") == 0 || res1 == errors.ErrServerError))
@@ -60,6 +60,18 @@ func post_CreateKey_fail(s *Service, res0 string, res1 *errors.Error) bool {
 func specMinted(res1 *errors.Error) bool { // exactly one key was handed to the cipher
 	return vs.TraceFind("DecryptKey") >= 0 && vs.TraceFind("EncryptKey") >= 0 && vs.TraceCount("EncryptKey") == 1
 }
+// specExpired: what Key.IsExpired computed for the parent, read off the recorded time comparisons (expiry is not
+// "never" and lies before now)
+func specExpired() bool {
+	e, b := vs.TraceFind("Equal"), vs.TraceFind("Before")
+	return e >= 0 && !vs.TraceRet[bool](e, 0) && b >= 0 && vs.TraceRet[bool](b, 0)
+}
+
+// only an UNEXPIRED master key mints (whoever the caller is: the MQTT request handler or the HTTP page)
+func post_CreateKey_unexpired(s *Service, res1 *errors.Error) bool {
+	return res1 != nil || (vs.TraceFind("Equal") >= 0 && !specExpired())
+}
+
 func post_CreateKey_master(s *Service, res1 *errors.Error) bool { // only a decryptable master key mints
 	d := vs.TraceFind("DecryptKey")
 	parent := vs.TraceRetBytes(d, 0)
